@@ -192,6 +192,9 @@ def lang_of(path):
 def line_text(i, l):
     k = l[0]
     if k == "C":
+        if len(l) > 3:
+            # a code line longer than 4096 bytes (files that share a long beginning and differ near the end)
+            return [f"int v{i}_{j}_{'a' * 4200} = {l[2]};" for j in range(l[1])]
         return [f"int v{i}_{j} = {l[2] if len(l) > 2 else 0};" for j in range(l[1])]
     if k == "B":
         return [f"! note {i}_{j}" for j in range(l[1])]
@@ -531,11 +534,21 @@ class C14(Check):
             else:
                 lines = [["C", r.randint(1, 2), r.randint(0, 1)]] + self.gen_lines(macros)
             files.append([p, lines])
+        # BIG files: one shared first line of 4.2 kB, then a class-specific tail; at least two content classes of
+        # size >= 2 and a singleton, so that the classes collide under any digest of a prefix
+        big = r.random() < 0.35
+        if big:
+            classes = [1, 1, 2, 2, 3] + [r.choice([1, 2, 3, 4]) for _ in range(r.randint(0, 2))]
+            r.shuffle(classes)
+            for n, cls in enumerate(classes):
+                p = r.choice(dirs) + [f"big{n}" + r.choice([".c", ".cpp", ".h"])]
+                used.add(pstr(p))
+                files.append([p, [["C", 1, 0, "pad"], ["C", 1, cls], ["C", 1, cls + 1]] + ([["C", 1, 7]] if cls == 3 else [])])
         files = [f for f in files if not f[0][-1].endswith(".h")] + [f for f in files if f[0][-1].endswith(".h")]
         # #include lines: a file may include headers that come later in the list (no cycles)
         for i, (p, lines) in enumerate(files):
             later = [j for j in range(i + 1, len(files)) if files[j][0][-1].endswith(".h")]
-            if later and r.random() < 0.75:
+            if later and r.random() < 0.75 and not p[-1].startswith("big"):
                 for _ in range(r.randint(1, 2)):
                     j = r.choice(later)
                     rel = os.path.relpath(pstr(files[j][0]), os.path.dirname(pstr(p)) or ".")
@@ -568,6 +581,8 @@ class C14(Check):
                         files.append([d + [hname], body])
                         used.add(pstr(d + [hname]))
             for i in srcs:
+                if files[i][0][-1].startswith("big"):
+                    continue                      # keep the shared 4 kB beginning of the BIG files intact
                 if lang_of(files[i][0]) != "asm" and r.random() < 0.7:
                     files[i][1].insert(r.choice([0, 0, 1]), ["H", r.choice(["cfg.h", "opt.h"]), None])
                 if r.random() < 0.6:
@@ -598,6 +613,8 @@ class C14(Check):
                 files.append([d + ["arch.h"], body])
                 used.add(pstr(d + ["arch.h"]))
             for i in srcs:
+                if files[i][0][-1].startswith("big"):
+                    continue
                 if lang_of(files[i][0]) != "asm" and r.random() < 0.8:
                     files[i][1].insert(0, ["H", "arch.h", None])
                     files[i][1] += [["Q", "MV", r.choice([1, 2])], ["C", r.randint(1, 2), 0], ["E"], ["C", r.randint(1, 3), 1], ["X"]]
@@ -638,7 +655,7 @@ class C14(Check):
             r.shuffle(a), r.shuffle(b), r.shuffle(c)
             perms.append([a, b, c])
         return {"k": "P", "files": files, "links": links, "incdirs": incdirs, "opts": opts, "plats": plats,
-                "sched": sched, "perms": perms}
+                "sched": sched, "perms": perms, "big": big}
 
     def generate(self):
         out = []
@@ -1425,6 +1442,8 @@ class _C14(C14):
                 for key, field in (("p_cases_with_user_compiler_passes", "passes"), ("p_cases_with_user_compiler_modes", "modes"),
                                    ("p_cases_with_clashing_I_directories", "I"), ("p_cases_with_forced_includes", "include")):
                     self.stats[key] = self.stats.get(key, 0) + int(any(o.get(field) for o in c.get("opts", {}).values()))
+                self.stats["p_cases_with_big_files_sharing_4kB_prefix"] = self.stats.get("p_cases_with_big_files_sharing_4kB_prefix", 0) + \
+                    int(sum(1 for _, ls in c["files"] if ls and len(ls[0]) > 3) >= 3)
                 inc = sum(1 for _, ls in c["files"] for l in ls if l[0] == "H")
                 per_file = self.oracle(c)["per_file"]
                 used_hdr = any(f.endswith(".h") and any(s for s, _ in rows) for f, rows in per_file.items())
